@@ -37,7 +37,7 @@ package pogreb
 //@   at call matchKey@1: cases which-file: b.file == idx.main || b.file == idx.overflow
 //@   at call matchKey@1: hint slot-on-disk: slotEncoded(fData[fidOf[b.file.File]], int(b.offset)+16*i, sl) && bucketAt(b.offset, b.file.size) && sl.offset != 0
 //@   at call matchKey@1: hint slot-position: slotPos(b.offset + 16*int64(i), b.file.size)
-//@   at call matchKey@1: hint slot-in-log: slotInSegAt(theDB().datalog, fData[fidOf[b.file.File]], b.offset + 16*int64(i))
+//@   at call matchKey@1: hint slot-in-log: trig(b.offset + 16*int64(i)) && slotInSegAt(theDB().datalog, fData[fidOf[b.file.File]], b.offset + 16*int64(i))
 //@   modifies theBuf()[*]
 //@   loop 1:
 //@     invariant idx == old(idx) && hash == old(hash) && it != nil && fresh(it) && it.overflow == idx.overflow
